@@ -190,12 +190,26 @@ def run(ctx):
             for t in a.targets:
                 if isinstance(t, ast.Name):
                     evars.add(t.id)
+    changed = True
+    while changed:
+        changed = False
+        for a in walk_no_nested(vv.node):
+            if isinstance(a, ast.Assign) and any(isinstance(x, ast.Name) and x.id in evars for x in ast.walk(a.value)):
+                for t in a.targets:
+                    if isinstance(t, ast.Name) and t.id not in evars:
+                        evars.add(t.id)
+                        changed = True
     if not evars:
         raise AnalysisError("E4", "value helper: lookup in extension_values not recognised")
 
     def ext_found(fc):
         e, pol = fact_atom(fc)
-        return isinstance(e, ast.Name) and e.id in evars and pol is True
+        if isinstance(e, ast.Name) and e.id in evars and pol is True:
+            return True
+        cp = cmp_parts(e)
+        if cp and cp[1] in ("In", "NotIn") and (norm(cp[2]) in evars or "extension_values" in norm(cp[2])) and not isinstance(cp[0], ast.Constant):
+            return (cp[1] == "In") == pol
+        return False
 
     def gate4(fc):
         e, pol = fact_atom(fc)
@@ -295,6 +309,30 @@ def run(ctx):
             ctx.holds("E6", "%s takes the names from the command's own arguments" % cb.qualname)
         else:
             ctx.violation("E6", cb, "registry-source", "complete_cb does not read the names from the command's arguments", node=cb.node)
+        # every value added is the loop variable over the command's own capabilities (quotes stripped)
+        arg_vars = set()
+        for a in walk_no_nested(cb.node):
+            if isinstance(a, ast.Assign) and any("arguments" in norm(x) for x in ast.walk(a.value) if isinstance(x, (ast.Subscript, ast.Attribute))):
+                arg_vars |= {t.id for t in a.targets if isinstance(t, ast.Name)}
+        loopvars = {lp.target.id for lp in walk_no_nested(cb.node) if isinstance(lp, ast.For) and isinstance(lp.target, ast.Name)
+                    and any(isinstance(x, ast.Name) and x.id in arg_vars for x in ast.walk(lp.iter))}
+        for f_, st_ in ws:
+            if f_ is not cb:
+                continue
+            vals = []
+            if isinstance(st_, ast.AugAssign) and isinstance(st_.value, ast.List):
+                vals = st_.value.elts
+            elif isinstance(st_, ast.Expr) and isinstance(st_.value, ast.Call) and st_.value.args:
+                vals = st_.value.args
+            else:
+                vals = [getattr(st_, "value", None)]
+            for v_ in vals:
+                if isinstance(v_, ast.Name) and v_.id in loopvars:
+                    ctx.holds("E6", "%s adds the required name itself (%s)" % (cb.qualname, v_.id))
+                else:
+                    ctx.violation("E6", cb, "registry-foreign-value:%s" % (norm(v_)[:40] if v_ is not None else "?"), "complete_cb loads %s, which is "
+                                  "not one of the names written in the require command" % (norm(v_)[:60] if v_ is not None else "?"), node=st_,
+                                  witness="an extension that no require names counts as loaded (e.g. vacation through vacation-seconds)")
     # callers of complete_cb
     callers = []
     for f in ctx.program.all_funcs():
